@@ -21,7 +21,7 @@ HSend(e) ==
            src == kfd[e.fd].src
            c == kc[s]
            old == IF f.qid \in DOMAIN kq THEN kq[f.qid].ctries ELSE 0
-           rec == [t |-> f.t, srv |-> s, fd |-> e.fd, tcp |-> (e.tcp = 1), lname |-> f.lname, name |-> f.name, qt |-> f.qt,
+           rec == [t |-> f.t, srv |-> s, fd |-> e.fd, tcp |-> (e.tcp = 1), lname |-> f.lname, name |-> f.name, qt |-> f.qt, qc |-> f.qc,
                    clen |-> f.clen, ck |-> f.ck, sk |-> f.sk, ctries |-> old]
            upd(c2) == /\ kc' = [kc EXCEPT ![s] = c2]
                       /\ kq' = (IF e.res = "ok" THEN (IF f.qid \in DOMAIN kq THEN [kq EXCEPT ![f.qid] = rec] ELSE kq @@ (f.qid :> rec)) ELSE kq)
@@ -45,7 +45,7 @@ HSend(e) ==
 
 Matches(p) == /\ p.parse = 1 /\ p.qid \in DOMAIN kq
               /\ kq[p.qid].fd = p.fd                    \* on the connection the query is assigned to (C05)
-              /\ p.qt = kq[p.qid].qt /\ p.qc = 1
+              /\ p.qt = kq[p.qid].qt /\ p.qc = kq[p.qid].qc
               /\ (IF kcfg.dns0x20 = 1 /\ ~kq[p.qid].tcp THEN p.name = kq[p.qid].name ELSE p.lname = kq[p.qid].lname)
 
 (* Several datagrams read from one connection by one processing call are processed after all of them were read, each
